@@ -1356,7 +1356,7 @@ func (prop) Generate(r *prng.Rand, phase string) any {
 		// as soon as one of them has the answer
 		l := 1 + r.Intn(4)
 		st := mgeom.Stride(l)
-		n := []int{2100, 4200, 6500}[r.Intn(3)] + r.Range(-2, 2)
+		n := []int{2100, 4200, 6500, 8200, 16400}[r.Intn(5)] + r.Range(-2, 2)
 		line := make([]mgeom.Coord, 0, n)
 		for i := 0; i < n; i++ {
 			c := make(mgeom.Coord, st)
@@ -1366,6 +1366,12 @@ func (prop) Generate(r *prng.Rand, phase string) any {
 				c[j] = mgeom.F(float64(r.Range(-3, 3)))
 			}
 			line = append(line, c)
+		}
+		if r.Chance(0.5) {
+			// the vertex farthest from the chord lies at one end of the line:
+			// a divide-and-conquer scan gets one trivial half
+			k := []int{1, n - 2}[r.Intn(2)]
+			line[k][1] = mgeom.F(1e6)
 		}
 		at := r.Range(0, 8)
 		if r.Chance(0.2) {
@@ -1382,6 +1388,9 @@ func (prop) Generate(r *prng.Rand, phase string) any {
 			names := []string{"xy.RingPredicates", "xy.IsRingCounterClockwise", "xy.PointsCentroidFlat", "xy.SimplifyFlatCoords"}
 			for i := r.Range(0, 2); i > 0; i-- {
 				nm := names[r.Intn(len(names))]
+				if n >= 8000 && i == 1 {
+					nm = "xy.SimplifyFlatCoords"
+				}
 				c := Call{Fn: nm, A: []int{fi}, I: r.Intn(64), X: mgeom.F(float64(r.Range(0, 20)) / 4)}
 				if len(table[tableIndex[nm]].kinds) == 2 {
 					c.A = append(c.A, ci)
